@@ -11,6 +11,7 @@ ALSO = {"C15-3": ["C04"], "C20-3": ["C17"], "C04-3": ["C01"]}
 def run(cmd, **kw):
     p = subprocess.run(cmd, stdout=subprocess.PIPE, stderr=subprocess.STDOUT, text=True, **kw)
     return p.returncode, p.stdout
+SEED = os.environ.get("VERIF_SEED", "0")
 ids = sys.argv[1:] or sorted(os.path.basename(os.path.dirname(p)) for p in glob.glob(f"{ROOT}/seeded/*/patch.diff"))
 run(["git", "-C", "/repo", "worktree", "remove", "--force", WT])
 rc, out = run(["git", "-C", "/repo", "worktree", "add", "--detach", WT, "HEAD"])
@@ -20,14 +21,17 @@ try:
     for sid in ids:
         d = f"{ROOT}/seeded/{sid}"
         pid = sid.split("-")[0]
-        run(["git", "checkout", "--", "."], cwd=WT)
+        run(["git", "reset", "-q", "--hard", "HEAD"], cwd=WT)
         rca, outa = run(["git", "apply", f"{d}/patch.diff"], cwd=WT)
+        if rca != 0:      # made against an older commit: try a three-way merge
+            run(["git", "reset", "-q", "--hard", "HEAD"], cwd=WT)
+            rca, outa = run(["git", "apply", "--3way", f"{d}/patch.diff"], cwd=WT)
         res = dict(applied=rca == 0, head=run(["git", "-C", "/repo", "rev-parse", "--short", "HEAD"])[1].strip(),
                    when=time.strftime("%Y-%m-%d %H:%M"), checks={})
         if rca == 0:
             meta0 = json.load(open(f"{d}/meta.json"))
             for p in [pid] + ALSO.get(sid, []):
-                rcc, outc = run(["./check", p], cwd=ROOT, env=dict(os.environ, VERIF_REPO=WT), timeout=7200)
+                rcc, outc = run(["./check", p], cwd=ROOT, env=dict(os.environ, VERIF_REPO=WT, VERIF_SEED=SEED), timeout=7200)
                 lines = [l for l in outc.splitlines() if "VIOLATION" in l or l.startswith("  [") or l.startswith(p + ":")]
                 res["checks"][p] = dict(rc=rcc, lines=lines[-6:])
             res["detected_by"] = [p for p, c in res["checks"].items() if c["rc"] == 1 and any("VIOLATION" in l for l in c["lines"])]
@@ -35,8 +39,9 @@ try:
             res["apply_output"] = outa[-300:]
             res["detected_by"] = []
         meta = json.load(open(f"{d}/meta.json"))
-        meta["recheck"] = res
-        meta["detected_by_now"] = res["detected_by"]
+        meta.setdefault("rechecks", {})[f"seed{SEED}"] = res
+        if SEED == "0" or not meta.get("detected_by_now"):
+            meta["detected_by_now"] = res["detected_by"]
         json.dump(meta, open(f"{d}/meta.json", "w"), indent=1)
         summary[sid] = res["detected_by"] if rca == 0 else "PATCH DOES NOT APPLY"
         print(sid, summary[sid], flush=True)
